@@ -17,6 +17,11 @@
     ValSim v w              v and w are equal up to the order of the members of objects and up to replacing a subtree
                             by a node-equal one (`Tree.eq`, graphtage's `==`): the least equivalence that contains
                             `Tree.eq`, is a congruence for lists / members, and permutes members of `{…}`.
+                            [audit] CAUTION: the gloss "equal up to member order / node-equal subtrees" is NOT what this
+                            relation is.  `eqv` takes arbitrary trees and `Tree.eq` is asymmetric on mappings with
+                            duplicate keys, so the closure relates ANY two objects with the same number (≥ 2) of
+                            members, e.g. {"a":1,"b":2} ~ {"c":"x","d":[null]} (`audit_valSim_loose` at the end of this
+                            file).  (1)/(2) therefore do not pin down keys or values of objects with ≥ 2 members.
                             (Needed because a mapping's pairs are printed in EDIT order — matched pairs first, then
                             removals, then insertions — and because a zero-cost Match prints the to-node / the cost gate
                             prints the from-node, which are node-equal but, inside mappings, possibly ordered
@@ -240,5 +245,44 @@ example : ¬ ScriptWellFormed l12 l1 (.mk .ed .none .none 0 [.mk .match_ (.at 0)
   simp [sideItems, absent, resolve, Script.kind, Script.fi, Script.ti, l12, l1, Item.children] at h1
   cases h1 with
   | cons _ h2 => cases h2
+
+/-! ### [audit] additions -/
+
+-- [audit] non-vacuity: the end-to-end theorems applied to a concrete nested pair of documents
+-- (`[1, {"a": "xy"}]` → `[{"a": "xz", "b": null}]`: a Remove, a MultiSetEdit with a KeyValuePairEdit / StringEdit, an Insert)
+def auditF : Tree := .list [.leaf (.int 1), .dict [([97], .leaf (.str [120, 121]))]]
+def auditG : Tree := .list [.dict [([97], .leaf (.str [120, 122])), ([98], .leaf .null)]]
+example := project_from {} [] auditF auditG (by decide) (by decide) (by decide) (by decide)
+example := project_to {} [] auditF auditG (by decide) (by decide) (by decide) (by decide)
+example := marks_iff {} [] auditF auditG (by decide) (by decide) (by decide) (by decide)
+
+-- [audit] `ValSim` is much weaker than "equal up to member order and node-equal subtrees": `Tree.eq` on mappings with
+-- DUPLICATE keys is not symmetric (`subKV` only checks that every pair of the left operand occurs on the right), and
+-- the `eqv` constructor accepts arbitrary trees, so the equivalence closure links any two objects of the same size ≥ 2:
+--   {"a":1,"b":2} ~ {"a":1,"a":1} ~ {"a":1,"c":"x"} ~ {"c":"x","c":"x"} ~ {"c":"x","d":[null]}
+-- Both end points have distinct keys, satisfy `litOK`, and are different documents (`Tree.eq` false).
+def auditA : Tree := .dict [([97], .leaf (.int 1)), ([98], .leaf (.int 2))]
+def auditB : Tree := .dict [([99], .leaf (.str [120])), ([100], .list [.leaf .null])]
+
+example : auditA.KeysDistinct ∧ auditB.KeysDistinct ∧ litOK auditA = true ∧ litOK auditB = true := by decide
+example : auditA.eq auditB = false := by simp [auditA, auditB, Tree.eq, subKV, findKV]
+
+theorem audit_valSim_loose : ValSim (treeVal auditB) (treeVal auditA) := by
+  have h1 : ValSim (treeVal (.dict [([97], .leaf (.int 1)), ([97], .leaf (.int 1))])) (treeVal auditA) :=
+    .eqv (by simp [auditA, Tree.eq, subKV, findKV, Scalar.eq])
+  have h2 : ValSim (treeVal (.dict [([97], .leaf (.int 1)), ([97], .leaf (.int 1))]))
+      (treeVal (.dict [([97], .leaf (.int 1)), ([99], .leaf (.str [120]))])) :=
+    .eqv (by simp [Tree.eq, subKV, findKV, Scalar.eq])
+  have h3 : ValSim (treeVal (.dict [([99], .leaf (.str [120])), ([99], .leaf (.str [120]))]))
+      (treeVal (.dict [([97], .leaf (.int 1)), ([99], .leaf (.str [120]))])) :=
+    .eqv (by simp [Tree.eq, subKV, findKV, Scalar.eq])
+  have h4 : ValSim (treeVal (.dict [([99], .leaf (.str [120])), ([99], .leaf (.str [120]))])) (treeVal auditB) :=
+    .eqv (by simp [auditB, Tree.eq, subKV, findKV, Scalar.eq])
+  exact .trans (.symm h4) (.trans h3 (.trans (.symm h2) h1))
+
+-- [audit] hence the CONCLUSION of `project_from` for the first document `{"a":1,"b":2}` is already satisfied by the
+-- canonical text of the unrelated document `{"c":"x","d":[null]}`: the theorem does not pin down the members of objects
+example : ∃ v, ValSim v (treeVal auditA) ∧ dropCommas (tokens (printJson auditB)) = v.toks :=
+  ⟨treeVal auditB, audit_valSim_loose, printJson_toks auditB (by decide)⟩
 
 end GtModel.C06
